@@ -9,7 +9,7 @@ harness/cmd/c03/lower.go).  Core Lean only.  The S-expressions are parsed by
 Driver/C03.lean (which imports this file); the functions here take parsed values.
 
   c03 LOWER <inputs> ( LOWER <program> <real ssa> )
-      `run`: `lower 100000 P[main]`; per input tuple THREE evaluations
+      `run`: `lower 100000 P main` (all calls inlined); per input tuple THREE evaluations
         ssaEval (lowered program)  =  ssaEval (real dumped SSA)  =  runRaw (source)
       all equal on every tuple: the outputs in the format of `evalOne` (hex joined
       by `,`, tuples joined by `;`: the Go side prints the real CIRCUIT's outputs in
@@ -87,11 +87,10 @@ def run (prog : Option (Nat × Prog)) (ssa : Option (List (Nat × Nat) × List S
   | none, _ => "bad-program"
   | _, none => "bad-ssa"
   | some (main, P), some (ri, rs) =>
-    if P.length ≠ 1 then "lower-none multi-function" else
     match P[main]? with
     | none => "bad-program"
     | some fn =>
-      match lower fuel fn with
+      match lower fuel P main with
       | none => "lower-none"
       | some (li, ls) =>
         match tuplesOf (fn.params.map fun p => p.2.bits) with
@@ -105,9 +104,8 @@ def rej (prog : Option (Nat × Prog)) : String :=
   match prog with
   | none => "bad-program"
   | some (main, P) =>
-    if P.length ≠ 1 then "lower-none multi-function" else
     match P[main]? with
     | none => "bad-program"
-    | some fn => if (lower fuel fn).isSome then "lower-ok" else "lower-none"
+    | some _ => if (lower fuel P main).isSome then "lower-ok" else "lower-none"
 
 end Drv.C03Lower
